@@ -56,7 +56,7 @@ def plan(tier):
         return {"cases": 12000, "timeout": 300, "wall_budget": 1500, "recheck": 12, "batch": 2, "nproc": 4}
     # process creation is the bottleneck in this sandbox (~400 forks/s in total,
     # not improved by parallelism); one run needs 3..6 forks
-    return {"cases": 320, "timeout": 240, "wall_budget": 60, "recheck": 3, "batch": 2, "nproc": 4}
+    return {"cases": 400, "timeout": 240, "wall_budget": 90, "recheck": 3, "batch": 2, "nproc": 4}
 
 SIZES = [0, 1, 100, 400, 3000, 9000, 10100, 10240, 10300, 20400, 20480, 30000, 40000]
 
